@@ -44,6 +44,7 @@ impl<'r> FEmitter<'r> {
 
     fn zinc<F: FnOnce(&mut Emitter) -> String>(&mut self, f: F) -> String {
         let mut cfg = GenCfg::swarm(self.rng);
+        cfg.big = None; // filter literals stay short; long ones are in the length ladders
         cfg.p_ref_dis = 200;
         let mut em = Emitter::new(self.rng, cfg);
         f(&mut em)
